@@ -38,6 +38,10 @@
 (*         size                                                            *)
 (*   F01f  the 40-byte table's checksum of the decompressed data of an     *)
 (*         encrypted chunk is the checksum of the compressed data          *)
+(*   F01g  with chunk size 0 the automatically chunking calls (add_data,   *)
+(*         add_mixed_data, BlteFile::compress) never return for a          *)
+(*         non-empty payload (they append empty chunks until memory is     *)
+(*         exhausted); monitor-level only, never executed in-process       *)
 (***************************************************************************)
 EXTENDS Naturals, Sequences, FiniteSets
 
@@ -91,10 +95,13 @@ Lenient(b, cipher) == IF cipher = "-" THEN b.mode \in DataModes ELSE cipher \in 
 Added(b, cs, len) == [b EXCEPT !.chunks = b.chunks \o cs, !.clen = b.clen + len,
                                !.sure = b.sure /\ len > 0]
 
+\* chunk size 0 (with_chunk_size_unchecked(0), BlteFile::compress(.., 0, ..)) cannot chunk a non-empty payload
+ZeroCS(b, len) == b.cs = 0 /\ len > 0
 AddR(b, len, cipher, base, org) ==
-  Ret(Added(b, Pieces(b, len, cipher, base, org), len),
-      IF InDomain(b, cipher) \/ Lenient(b, cipher) THEN "ok" ELSE "err",
-      ~InDomain(b, cipher))
+  IF ZeroCS(b, len) THEN Ret(b, "err", TRUE)
+  ELSE Ret(Added(b, Pieces(b, len, cipher, base, org), len),
+           IF InDomain(b, cipher) \/ Lenient(b, cipher) THEN "ok" ELSE "err",
+           ~InDomain(b, cipher))
 
 WithCompressionR(b, m) == Ret([b EXCEPT !.mode = m], "ok", FALSE)
 WithChunkSizeR(b, n, checked) ==
@@ -130,7 +137,7 @@ AddChunkR(b, len, m, kind) ==
 \* BlteFile::compress(data, cs, m): chunk automatically and build, in one call
 CompressR(len, cs, m) ==
   LET r == AddR([B0 EXCEPT !.cs = cs, !.mode = m], len, "-", 0, "compress")
-  IN Ret([r.st EXCEPT !.table = "std"], r.res, r.may)
+  IN IF r.res = "err" THEN r ELSE Ret([r.st EXCEPT !.table = "std"], r.res, r.may)
 
 \* ---- decoding, at chunk granularity ------------------------------------------------------------------
 \* positions (1-based) whose chunk was encrypted under a block index other than its position
